@@ -1,6 +1,7 @@
 package exec
 
 import (
+	"errors"
 	"math"
 	"strconv"
 	"strings"
@@ -66,13 +67,7 @@ func (n String) String() string {
 }
 
 func (n String) Number() float64 {
-	ret, err := strconv.ParseFloat(string(n), 64)
-
-	if err != nil {
-		return math.NaN()
-	}
-
-	return ret
+	return getStringNumber(string(n))
 }
 
 func (n String) Bool() bool {
@@ -97,10 +92,38 @@ func (n NodeSet) Bool() bool {
 	return len(n) > 0
 }
 
+// getStringNumber converts a string to a number as the XPath number()
+// function does: optional whitespace, an optional minus sign, a Number
+// (digits with an optional fraction, or a '.' followed by digits) and optional
+// whitespace.  Anything else, including exponents, a plus sign, hexadecimal
+// numerals and the words Infinity and NaN, is NaN.
 func getStringNumber(str string) float64 {
+	str = strings.Trim(str, " \t\r\n")
+	digits := 0
+	i := 0
+
+	if i < len(str) && str[i] == '-' {
+		i++
+	}
+
+	for ; i < len(str) && str[i] >= '0' && str[i] <= '9'; i++ {
+		digits++
+	}
+
+	if i < len(str) && str[i] == '.' {
+		for i++; i < len(str) && str[i] >= '0' && str[i] <= '9'; i++ {
+			digits++
+		}
+	}
+
+	if i != len(str) || digits == 0 {
+		return math.NaN()
+	}
+
 	ret, err := strconv.ParseFloat(str, 64)
 
-	if err != nil {
+	// Numerals beyond the range of a double round to infinity.
+	if err != nil && !errors.Is(err, strconv.ErrRange) {
 		return math.NaN()
 	}
 
